@@ -45,6 +45,7 @@ type Sched struct {
 	Tape     []uint16 `json:"tape"`
 	Disabled []string `json:"disabled,omitempty"`
 	Victim   string   `json:"victim,omitempty"`
+	PCT      *sim.PCT `json:"pct,omitempty"` // priority strategy instead of the tape
 }
 
 // CompileRun is the configuration of one Compile call.
@@ -193,6 +194,7 @@ func bubbleCfg(sc *Sched, budget int) sim.BubbleConfig {
 		Victim:     sc.Victim,
 		MaxSteps:   budget,
 		WakePoints: compileWake,
+		PCT:        sc.PCT,
 	}
 }
 
